@@ -585,6 +585,7 @@ fn main() {
                 if cbs != 1 { viol.push(("close_callback_count".into(), format!("Multi {kind}: the close callback of listener #{l} ran {cbs} times"))); }
                 if trace.iter().any(|x| x == "call 0 closeanswered false") { viol.push(("close_failed".into(), "Multi::close() with an unbounded timeout answered false".into())); }
                 rep.add_run(trace, trace.iter().any(|x| x.ends_with("expired: true")), &format!("mremove/{kind}/l{nl}"), "Completed");
+                out.write_run(&format!("cfg model=exec futures=1 limit=1 seed={seed} run={i} listener={l}"), trace);
                 viol.truncate(2);
                 for (k, d) in viol {
                     let header = vec![format!("cmd exec sub=mremove runs=1 seedx={seed}"), format!("violation {k}: {d}")];
@@ -593,6 +594,7 @@ fn main() {
                 }
             }
         }
+        out.finish();
         rep.print();
         return
     }
